@@ -226,9 +226,13 @@ fn res_str(r: &Res) -> String {
 }
 
 fn check(case: &TableCase, obs: &Observed, v: &mut Vec<Violation>, stats: &mut RunStats) {
-    let cap = 8 * case.tables * case.buckets;
-    if obs.max_entries != cap {
-        v.push(Violation::new("C15", "capacity", "", format!("max_entries() = {} for {}x{} buckets of 8", obs.max_entries, case.tables, case.buckets)));
+    // slots per bucket are the implementation's business: learned from the reported capacity
+    let nb = case.tables * case.buckets;
+    let slots = if nb > 0 && obs.max_entries % nb == 0 && obs.max_entries > 0 { obs.max_entries / nb } else { 0 };
+    let cap = obs.max_entries;
+    if slots == 0 {
+        v.push(Violation::new("C15", "capacity", "", format!("max_entries() = {} is not a positive multiple of {}x{} buckets", obs.max_entries, case.tables, case.buckets)));
+        return;
     }
     if let Some(k) = obs.route_unstable {
         v.push(Violation::new("C15", "route-function", "", format!("key {:#x} alone in a fresh table did not land in one stable slot", k)));
@@ -324,7 +328,7 @@ fn check(case: &TableCase, obs: &Observed, v: &mut Vec<Violation>, stats: &mut R
                 let had = inserts.iter().any(|i| ins_key(i) == *key && i.ret < r.inv);
                 if had {
                     let ok = match route(*key) {
-                        Some(b) => others_before(b, *key, r.ret) >= 8,
+                        Some(b) => others_before(b, *key, r.ret) >= slots,
                         None => false,
                     };
                     if ok {
@@ -354,7 +358,7 @@ fn check(case: &TableCase, obs: &Observed, v: &mut Vec<Violation>, stats: &mut R
                             }
                         }
                     }
-                    per.values().map(|s| s.len().min(8)).sum()
+                    per.values().map(|s| s.len().min(slots)).sum()
                 };
                 let lo = occ(r.inv, true);
                 let hi = occ(r.ret, false);
@@ -408,15 +412,15 @@ fn check(case: &TableCase, obs: &Observed, v: &mut Vec<Violation>, stats: &mut R
             per_bucket.entry(b).or_default().insert(ins_key(i));
         }
     }
-    let expect_occ: usize = per_bucket.values().map(|s| s.len().min(8)).sum();
+    let expect_occ: usize = per_bucket.values().map(|s| s.len().min(slots)).sum();
     if occupied != expect_occ {
         v.push(Violation::new("C15", "entry-count", "occupancy", format!("{} slots occupied, {} expected from the distinct keys inserted per bucket", occupied, expect_occ)));
     }
-    if per_bucket.values().any(|s| s.len() > 8) {
+    if per_bucket.values().any(|s| s.len() > slots) {
         stats.probe("bucket-overflow");
     }
     for (b, keys) in &per_bucket {
-        if keys.len() <= 8 {
+        if keys.len() <= slots {
             for k in keys {
                 if !seen.contains(k) {
                     v.push(Violation::new("C15", "lost-entry", "quiescent", format!("key {:#x} is gone from bucket {:?} that never held more than {} keys", k, b, keys.len())));
@@ -439,7 +443,7 @@ fn check(case: &TableCase, obs: &Observed, v: &mut Vec<Violation>, stats: &mut R
                     if let Some(e) = bucket.iter_mut().find(|e| e.0 == *key) {
                         e.1 = val;
                         stats.probe("same-key-overwrite");
-                    } else if bucket.len() < 8 {
+                    } else if bucket.len() < slots {
                         bucket.push((*key, val));
                     } else {
                         // some victim must have gone: read it off the storage
@@ -495,7 +499,7 @@ fn check(case: &TableCase, obs: &Observed, v: &mut Vec<Violation>, stats: &mut R
                 continue;
             }
             stats.eval("linearize-bucket");
-            if !linearizable(&hist) {
+            if !linearizable(&hist, slots) {
                 v.push(Violation::new("C15", "linearizability", "", format!("history of bucket {:?} ({} ops) has no linearization against the bounded-map model", b, hist.len())));
             }
         }
@@ -505,10 +509,10 @@ fn check(case: &TableCase, obs: &Observed, v: &mut Vec<Violation>, stats: &mut R
 /// WGL-style search: is there a total order of the operations, consistent with real-time
 /// order, under which a bucket of 8 slots (overwrite same key, fill empty slot, else
 /// displace *some* resident) explains every result?
-fn linearizable(hist: &[&Rec]) -> bool {
+fn linearizable(hist: &[&Rec], slots: usize) -> bool {
     let n = hist.len();
     let mut memo: HashSet<(u32, Vec<(u64, i32)>)> = HashSet::new();
-    fn go(hist: &[&Rec], done: u32, state: &mut Vec<(u64, i32)>, memo: &mut HashSet<(u32, Vec<(u64, i32)>)>) -> bool {
+    fn go(hist: &[&Rec], slots: usize, done: u32, state: &mut Vec<(u64, i32)>, memo: &mut HashSet<(u32, Vec<(u64, i32)>)>) -> bool {
         let n = hist.len();
         if done == (1u32 << n) - 1 {
             return true;
@@ -528,7 +532,7 @@ fn linearizable(hist: &[&Rec]) -> bool {
             match (&r.op, &r.res) {
                 (TOp::Find { key }, Res::Found(got)) => {
                     let have = state.iter().find(|e| e.0 == *key).map(|e| e.1);
-                    if have == got.map(|e| e.evaluation) && go(hist, done | (1 << i), state, memo) {
+                    if have == got.map(|e| e.evaluation) && go(hist, slots, done | (1 << i), state, memo) {
                         return true;
                     }
                 }
@@ -537,21 +541,21 @@ fn linearizable(hist: &[&Rec]) -> bool {
                     if let Some(pos) = state.iter().position(|e| e.0 == *key) {
                         let old = state[pos].1;
                         state[pos].1 = val;
-                        if go(hist, done | (1 << i), state, memo) {
+                        if go(hist, slots, done | (1 << i), state, memo) {
                             return true;
                         }
                         state[pos].1 = old;
-                    } else if state.len() < 8 {
+                    } else if state.len() < slots {
                         state.push((*key, val));
-                        if go(hist, done | (1 << i), state, memo) {
+                        if go(hist, slots, done | (1 << i), state, memo) {
                             return true;
                         }
                         state.pop();
                     } else {
-                        for victim in 0..8 {
+                        for victim in 0..slots {
                             let old = state[victim];
                             state[victim] = (*key, val);
-                            if go(hist, done | (1 << i), state, memo) {
+                            if go(hist, slots, done | (1 << i), state, memo) {
                                 return true;
                             }
                             state[victim] = old;
@@ -567,7 +571,7 @@ fn linearizable(hist: &[&Rec]) -> bool {
         return true;
     }
     let mut state = Vec::new();
-    go(hist, 0, &mut state, &mut memo)
+    go(hist, slots, 0, &mut state, &mut memo)
 }
 
 // ------------------------------------------------------------------ generation
